@@ -506,8 +506,15 @@ class MapfileTransformer(Transformer):
             return False
 
         depth = 0
+        quote = None
         for idx, char in enumerate(exp.strip()):
-            if char == "(":
+            if quote:
+                # brackets within strings are not part of the expression structure
+                if char == quote:
+                    quote = None
+            elif char in ("'", '"', "`"):
+                quote = char
+            elif char == "(":
                 depth += 1
             elif char == ")":
                 depth -= 1
